@@ -78,12 +78,15 @@ PROPERTIES = {
     },
     "C04": {
         "level": "proof",
-        "verus_units": ["convert"],
+        "verus_units": ["convert", "fromfixed@*"],
         "kani": TFH + _mods("conv8", ["s0", "s4", "s8"], ["i8_to_i8", "i8_to_u8", "u8_to_i8", "u8_to_u8"]) + CONVINT + CONVX,
         "kani_thorough": _mods("conv8", [x for x in S9 if x not in ("s0", "s4", "s8")], ["i8_to_i8", "i8_to_u8", "u8_to_i8", "u8_to_u8"]),
-        "explanation": "to_fixed_helper under contract for all layouts; FromFixed/ToFixed policies verified on all pairs of 8-bit layouts, "
+        "explanation": "`impl FromFixed for <family>` (from_fixed, checked_, saturating_, wrapping_, overflowing_from_fixed) verified by Verus for all ten "
+                       "destination families with a symbolic Frac, generic over EVERY source type, on top of the to_fixed_helper contract; the typenum "
+                       "bounds of 371 From / LossyFrom impls verified (unit convert); to_fixed_helper under contract for all layouts (Kani); "
+                       "the policies additionally verified bit-precisely on all pairs of 8-bit layouts, "
                        "all 12 integer types, listed cross-width pairs and From/LossyFrom instances",
-        "bounded_parts": ["FromFixed/ToFixed policy glue and From/LossyFrom: complete for the instantiated type pairs only"],
+        "bounded_parts": ["integer sources/destinations (impl_int!: to_repr_fixed / from_repr_fixed) and the bodies of From / LossyFrom: Kani on the instantiated type pairs only"],
     },
     "C05": {
         "level": "proof",
@@ -124,7 +127,7 @@ PROPERTIES = {
     },
     "C11": {
         "level": "proof",
-        "verus_units": ["arith_widen", "arith128", "widediv", "nofrac", "fracops", "round@*", "transc", "leaves", "cmp@*"],
+        "verus_units": ["arith_widen", "arith128", "widediv", "nofrac", "fracops", "round@*", "transc", "leaves", "cmp@*", "fromfixed@*"],
         "kani": [{"harness": h, "classes": ["panic"]} for h in
                  _mods("arith8", ["i4f4", "i0f8", "u4f4", "u0f8"], FORMS) + ["arith8::abs_forms_i8"] + TFH
                  + ["float::check_to_f32", "float::check_to_f64", "float::check_kind_f32", "float::check_kind_f64"]
